@@ -159,6 +159,7 @@ func (p *Prog) collectSrcFuncs() {
 		return a.String() < b.String()
 	})
 	p.computeFuncAliases()
+	p.normaliseParamOrder(ssautil.AllFunctions(p.SSA))
 }
 
 // SrcFuncs returns every function with a body defined in the module (non-test), including closures.
